@@ -92,6 +92,7 @@ class CallMixin:
             tn = self.p.typename_of_id(tagc.as_long())
             fn = self.p.method(tn, m) if tn else None
             if fn is not None:
+                if tn.startswith('*') and z3.is_expr(recv.val): st.assume(And(recv.val >= 0, recv.val <= st.alloc))   # a boxed pointer is a pointer
                 rv = recv.box if recv.box is not None and not z3.is_expr(recv.box) else recv.val
                 return self.call_named(fr, st, ins, site, fn, [rv] + list(args), None, cont, spawn)
         c = self.iface_contract(ins['iface'], m)
@@ -107,6 +108,7 @@ class CallMixin:
                         cnd = recv.tag == self.p.typeid(t)
                         if not self.feasible(st, cnd): continue
                         s2 = st.copy(); s2.assume(cnd)
+                        if t.startswith('*') and z3.is_expr(recv.val): s2.assume(And(recv.val >= 0, recv.val <= s2.alloc))
                         self.call_named(fr.fork(), s2, ins, site, self.p.method(t, m), [recv.val] + list(args), None, cont, spawn)
                     return
         if c is None:
@@ -246,7 +248,7 @@ class CallMixin:
                 if r.kind in ('nonzero', 'monotone') and r.key in st.sorts:
                     stable[r.key] = (r, st.arr(r.key, *st.sorts[r.key]))
             for key in list(st.sorts):
-                if key in wk or key.startswith('mem:') or key.startswith('sync/atomic.Value') or key.startswith('chan.') or key.startswith('global:'):
+                if key in wk or key.startswith('mem:') or key.startswith('sync/atomic.Value') or key.startswith('chan.') or (key.startswith('global:') and key not in self.owned_keys()):
                     st.havoc(key)
             # what other threads / callbacks can never do to the declared words
             x = Int('st!x')
